@@ -167,7 +167,7 @@ def run(ctx):
             nrows += 1
             ck.ob("C03-T1", sup.path, "row:%s" % ",".join("%s=%s" % (kk, "T" if vv else "F") for kk, vv in sorted(val.items())),
                   not unk and want is not None and got == want, detail="continue=%s, specification (held&!absorbed)|is_new=%s %s" % (got, want, unk or ""))
-        ck.floor("C03-T1", "table-rows", nrows, 5)
+        ck.floor("C03-T1", "table-rows", nrows, 2)
 
     # the "held" set that is_supported consults is kept exact: every acted-on press records the key on every
     # return path, every acted-on release forgets it on every return path
@@ -209,7 +209,7 @@ def run(ctx):
                       detail=None if (pressed or held) else "a modifier output is skipped without being known to be held")
             else:
                 ck.ob("C03-R3", ANM, "branch-classifies-the-output-with-is_action_key", False, detail=str(act))
-        ck.floor("C03-R3", "press-loop-branches", nb, 5)
+        ck.floor("C03-R3", "press-loop-branches", nb, 2)
         # Normal arm: nothing released after the loop
         mrep = T("field", m, "repeat")
         for fx in K.path_fx(anm):
